@@ -3,6 +3,7 @@
 import sys, collections
 specs = []; enabled = []; opinfo = {}; opstatus = collections.defaultdict(dict); txstatus = collections.defaultdict(dict)
 pre = collections.defaultdict(list); consts = []; ires = []
+statictab = collections.defaultdict(dict); staticchild = []   # C10, written to Revm/Gen/StaticTable.lean
 for line in sys.stdin:
     t = line.split()
     if not t: continue
@@ -15,6 +16,8 @@ for line in sys.stdin:
     elif k == "precompile": pre[int(t[1])].append((int(t[2]), t[3] == "1", t[4] == "1", t[5] == "1"))
     elif k == "const": consts.append((t[1], int(t[2])))
     elif k == "iresult": ires.append((t[1], t[2] == "1", t[3] == "1", t[4] == "1"))
+    elif k == "statictab": statictab[(int(t[1]), int(t[2]), int(t[3]))][int(t[4])] = int(t[5])
+    elif k == "staticchild": staticchild.append(tuple(int(x) for x in t[1:6]))
 def b(x): return "true" if x else "false"
 o = []
 o.append("/-! GENERATED on every run by tools/tables2lean.py from the output of harness/src/bin/tables.rs,")
@@ -45,3 +48,24 @@ o.append("/-- InstructionResult classification: (name, is_ok, is_revert, is_erro
 o.append("def iresult : List (String × Bool × Bool × Bool) := [" + ", ".join(f'("{n}", {b(x)}, {b(y)}, {b(z)})' for n, x, y, z in ires) + "]")
 o.append("end Revm.Gen")
 print("\n".join(o))
+# C10: the static-mode table goes to its own generated file (rewritten only when its content changes)
+if statictab:
+    import os
+    q = []
+    q.append("/-! GENERATED on every run by tools/tables2lean.py from the `statictab` / `staticchild` lines of")
+    q.append("harness/src/bin/tables.rs (harness/src/c10.rs::dump_static_table), which *executes the compiled")
+    q.append("implementation* in static mode for every opcode x SpecId x {legacy, EOF} x {zero, one} stack fill. Do not edit. -/")
+    q.append("namespace Revm.Gen")
+    q.append("/-- rows (spec, eof, fill, codes for opcode 0..255); code = res*100 + mut*10 + act, 999 = not executed")
+    q.append("(opcode rejected by EOF validation); see harness/src/c10.rs for res / mut / act -/")
+    q.append("def staticTable : List (Nat × Nat × Nat × List Nat) := [")
+    q.append(",\n".join(f"  ({s_}, {e}, {f}, [" + ", ".join(str(statictab[(s_, e, f)][op]) for op in range(256)) + "])" for (s_, e, f) in sorted(statictab, key=lambda x: ([n for _, n in specs].index(x[0]), x[1], x[2]))))
+    q.append("]")
+    q.append("/-- (spec, eof, parent is_static, call opcode, child): child = CallInputs.is_static of the emitted Call action, 2 = no Call action -/")
+    q.append("def staticChild : List (Nat × Nat × Nat × Nat × Nat) := [" + ", ".join("(" + ", ".join(str(x) for x in r) + ")" for r in staticchild) + "]")
+    q.append("end Revm.Gen")
+    src = "\n".join(q) + "\n"
+    dst = os.path.join(os.path.dirname(os.path.abspath(__file__)), "..", "lean", "Revm", "Gen", "StaticTable.lean")
+    old = open(dst).read() if os.path.exists(dst) else None
+    if old != src:
+        with open(dst, "w") as f: f.write(src)
